@@ -136,6 +136,7 @@ def main(argv=None):
     ap.add_argument("--jobs", type=int, default=int(os.environ.get("VERIF_JOBS", "0") or 0) or (os.cpu_count() or 4))
     ap.add_argument("--replay")
     ap.add_argument("--no-evidence", action="store_true")
+    ap.add_argument("--classes", action="store_true", help="print every violation class with its count (triage)")
     args = ap.parse_args(argv)
     pid = args.prop.upper()
     mod = load_prop(pid)
@@ -324,6 +325,11 @@ def main(argv=None):
             print(f"  worker {w['status']}: {w['stderr_tail'][-800:]}")
         for line in out_lines:
             print(line)
+        if args.classes:
+            for cls, n in sorted(agg["vio_counts"].items(), key=lambda kv: -kv[1]):
+                prop, sub, fields = json.loads(cls)
+                e = kf.classify(entries, {"property": prop, "sub": sub, "fields": fields})
+                print(f"  CLASS n={n} {'known:' + e['key'] if e else 'UNLISTED'} sub={sub} fields={json.dumps(fields, sort_keys=True)}")
         return rc
     finally:
         shutil.rmtree(tmp, ignore_errors=True)
